@@ -193,7 +193,9 @@ class Ctx:
     def sample(self, part, cell, res):
         if len(self.samples) < 6:
             s = {'part': part, 'cell': cell}
-            for k in ('obs', 'nt', 'vac'):
+            if res.get('sample') is not None:
+                s['case'] = res['sample']
+            for k in ('obs', 'vac'):
                 if res.get(k) is not None:
                     s[k] = res[k]
             self.samples.append(json.loads(json.dumps(s, default=str)))
